@@ -7,6 +7,7 @@ import PercevalModel.Lemmas.C15
 import PercevalModel.Lemmas.C15FF
 import PercevalModel.Lemmas.C15Text
 import PercevalModel.Lemmas.C15PS
+import PercevalModel.Lemmas.C15PSW
 import PercevalModel.Lemmas.C15Tree
 import PercevalModel.Lemmas.C15F32
 
@@ -566,6 +567,34 @@ theorem roundtrip_postselect_fails_on_current_code :
   print_asfound_changes_meaning
 
 example : ∃ e : Expr, e.WF ∧ ¬ e.NotLastFree := ⟨witness, by decide, by decide⟩
+
+/-- The serializer AS WRITTEN (`_postselect_to_str`: one `re.sub` pass over `str(ps)` with the pattern
+`! |\(|\)|\[[^]]*\] \S+ \d+` and the `pending` / `enclosing` bookkeeping, `Model/C15PSW.lean`) writes exactly the text of
+the repaired writer, for every expression (any nesting, any number of negations in a row, numbers of any length) and
+for the empty PostSelect. -/
+theorem postselect_writer_as_written (x : Option Expr) : payloadAsWritten x = some (printTop true x) :=
+  payloadAsWritten_eq x
+
+/-- … so `PostSelect(payload)` is the original expression: the round trip of the code as it is written. -/
+theorem roundtrip_postselect_as_written (x : Option Expr) (h : ∀ e, x = some e → e.WF) :
+    (payloadAsWritten x).bind parseTop = some x :=
+  parse_payloadAsWritten x h
+
+/-- … and the same predicate on every state. -/
+theorem roundtrip_postselect_as_written_meaning (x : Option Expr) (h : ∀ e, x = some e → e.WF) (st : List Nat) :
+    ((payloadAsWritten x).bind parseTop).map (fun y => evalTop y st) = some (evalTop x st) := by
+  rw [parse_payloadAsWritten x h]; rfl
+
+/-- The `+` of `\d+` is load-bearing: if the condition token ended after ONE digit, `! [1] <= 10` would be written
+`(! [1] <= 1)0` (the closing parenthesis inside the number), a text `PostSelect(…)` refuses. -/
+theorem postselect_writer_one_digit_token_breaks :
+    twoDigit.WF ∧ scan true 0 0 [] (print false twoDigit) = some "(! [1] <= 1)0".toList ∧
+    parseTop "(! [1] <= 1)0".toList = none ∧
+    scan false 0 0 [] (print false twoDigit) = some "(! [1] <= 10)".toList :=
+  oneDigit_breaks
+
+example : (payloadAsWritten (some witness)).bind parseTop = some (some witness) :=
+  roundtrip_postselect_as_written (some witness) (by intro e h; cases h; decide)
 
 end PS
 
